@@ -366,7 +366,8 @@ func (w *World) handlerReturnedBefore(tag string, seq int64) bool {
 
 // AtEnd checks the exactly-one-close clause at a quiescent point while tunnels are up.
 func (m *WireMonitor) AtEnd() {
-	if !m.JudgeServer {
+	// (needs a true quiescent point: not available in free-running mode)
+	if !m.JudgeServer || m.w.Free {
 		return
 	}
 	idle := map[*Link]bool{}
